@@ -14,3 +14,5 @@ def proved(run):
             f(run)
         except (I.OutOfSubset, KeyError) as e:
             run.obligation("C17/" + f.__name__, "out-of-subset", detail=str(e))
+    from props import frames_automata
+    frames_automata.run_frames(run, "C17")
